@@ -14,7 +14,7 @@ def build_and_run(workdir, program_src, main_src, features=('derive',), profiles
     with open(os.path.join(workdir, 'Cargo.toml'), 'w') as f:
         f.write('[package]\nname = "vx_replay"\nversion = "0.0.0"\nedition = "2021"\n\n[dependencies]\n'
                 'strum = { path = "%s/strum", features = [%s] }\n\n[profile.release]\noverflow-checks = false\n\n[workspace]\n' % (expand.REPO, feats))
-    shutil.copy(os.path.join(expand.REPO, 'Cargo.lock'), os.path.join(workdir, 'Cargo.lock'))
+    expand.copy_lock(workdir)
     with open(os.path.join(workdir, 'src', 'main.rs'), 'w') as f:
         f.write('#![allow(dead_code, unused_imports, unused_variables, non_camel_case_types, deprecated, unreachable_patterns, non_snake_case)]\n'
                 + expand.FIXTURES +
